@@ -38,6 +38,8 @@ fn ie_expr(e: &IE) -> Expr {
     }
 }
 fn int_set(r: &mut Rng) -> Vec<(i64, i64)> {
+    // one set in ten holds many separated points (more boxes than the capacity once combined with another set)
+    if r.chance(1, 10) { let k = r.range(50, 100); let step = r.range(2, 5); return (0..k).map(|v| (v * step, v * step)).collect(); }
     let n = r.range(1, 3);
     (0..n).map(|_| match r.below(6) {
         0 => (i64::MIN, i64::MAX), 1 => { let a = r.range(-50, 50); (a, a) },
@@ -126,6 +128,14 @@ pub fn child(k: usize, outdir: &str, seed: u64, thorough: bool) -> serde_json::V
         let tys: Vec<Ty> = if f == F::Case { vec![Ty::Bool(vec![false, true]), arg_ty(&mut r, Cat::Num), arg_ty(&mut r, Cat::Num)] }
             else if f == F::Substr { vec![arg_ty(&mut r, Cat::Txt), Ty::Int(vec![(0, 5)])] }
             else if f == F::Pow { vec![arg_ty(&mut r, Cat::Num), if r.chance(1, 2) { Ty::Int(vec![(-3, 3)]) } else { let a = (r.range(-6, 4) as f64) / 2.0; Ty::Float(vec![(a, a + (r.range(1, 6) as f64) / 2.0)]) }] }
+            else if c == Cat::Num && n == 2 && r.chance(1, 6) {
+                // many-valued arguments: more boxes than an interval set holds (100 points x 2 or 3 separated values)
+                st.bump("many_valued_argument_cases");
+                let k = r.range(60, 110);
+                let first = if r.chance(1, 2) { Ty::Int((0..k).map(|v| (v, v)).collect()) } else { Ty::Float((0..k.min(100)).map(|v| (v as f64 / 2.0, v as f64 / 2.0)).collect()) };
+                let base = *r.pick(&[1000i64, 37, 250]);
+                let second = if r.chance(1, 2) { Ty::Int((0..r.range(2, 3)).map(|j| (j * base, j * base)).collect()) } else { Ty::Float((0..r.range(2, 4)).map(|j| ((j * base) as f64 + 0.5, (j * base) as f64 + 0.5)).collect()) };
+                if r.chance(1, 2) { vec![first, second] } else { vec![second, first] } }
             else if c == Cat::Num && r.chance(1, 4) {
                 // small float ranges around zero (crossing it, touching it, on either side): interior points matter
                 (0..n).map(|_| { let a = (r.range(-12, 8) as f64) / 4.0; let b = a + (r.range(1, 16) as f64) / 4.0; Ty::Float(vec![(a, b)]) }).collect() }
